@@ -45,7 +45,8 @@ SPELL = {
     "jr:requiredMsg": ["required_message", "requiredmsg", "bind::jr:requiredMsg"],
     "jr:noAppErrorString": ["noapperrorstring", "no_app_error_string", "bind::jr:noAppErrorString"],
 }
-CUSTOM = ["foo", "Foo", "data-x", "odk:length", "jr:preload", "jr:preloadParams", "type", "x.y", "orx:max-pixels", "_u"]
+CUSTOM = ["foo", "Foo", "data-x", "odk:length", "jr:preload", "jr:preloadParams", "type", "x.y", "orx:max-pixels", "_u",
+          "tag", "toParseString"]
 YESNO = ["yes", "Yes", "YES", "true", "True", "TRUE", "no", "No", "NO", "false", "False", "FALSE",
          "true()", "false()", "maybe", "y", "tRuE", "1", "yes ", " no"]
 EXPRS = [". > 3", ". != ''", "string-length(.) < 10", "1 + 1", "now()", "a  b", " . = 'x' ", "'a  b' = .",
@@ -127,6 +128,78 @@ def plain_types():
     return _TYPES
 
 
+VISIBLE_TKEYS = {"text", "integer", "decimal", "date", "note", "acknowledge", "trigger", "select one",
+                 "select all that apply", "rank", "range", "geopoint", "photo", "audio", "time", "dateTime", "barcode"}
+
+# ---- parameters (own copy of the documented rules; independent of /repo)
+NUMS_INT = ["0", "1", "5", "10", "-3", "+2", "100", "007"]
+NUMS_DEC = ["0.5", "9.5", "2.25", ".5", "5.", "-0.1", "1.0", "10.50"]
+NUMS_ZERO_DEC = ["0.0", "0.00", ".0"]
+
+
+def gen_params(rng, tkey):
+    """ordered [(key, value)] for the types whose parameters reach the bind (or must not disturb it)."""
+    if tkey == "range":
+        keys = rng.sample(["start", "end", "step"], rng.randint(0, 3))
+        shape = rng.choice(["int", "one-dec", "one-dec", "one-dec", "mixed", "zero-dec"])
+        ps = [[k, rng.choice(NUMS_INT)] for k in keys]
+        if ps and shape == "one-dec":
+            rng.choice(ps)[1] = rng.choice(NUMS_DEC)
+        elif shape == "mixed":
+            ps = [[k, rng.choice(NUMS_INT + NUMS_DEC)] for k in keys]
+        elif ps and shape == "zero-dec":
+            rng.choice(ps)[1] = rng.choice(NUMS_ZERO_DEC)
+        return ps
+    if tkey in ("photo", "image"):
+        return [["max-pixels", rng.choice(["640", "1024", "+80"])]] if rng.random() < 0.7 else []
+    if tkey == "audio":
+        return [["quality", rng.choice(["voice-only", "low", "normal", "external", "LOW", "Normal"])]] if rng.random() < 0.7 else []
+    if tkey == "background-audio":
+        return [["quality", rng.choice(["voice-only", "low", "normal"])]] if rng.random() < 0.5 else []
+    if tkey in ("geopoint", "geoshape", "geotrace"):
+        ps = []
+        if rng.random() < 0.7:
+            ps.append(["allow-mock-accuracy", rng.choice(["true", "false", "TRUE", "False"])])
+        if tkey == "geopoint" and rng.random() < 0.4:
+            ps.append(["capture-accuracy", rng.choice(["5", "2.5"])])
+        if tkey == "geopoint" and rng.random() < 0.3:
+            ps.append(["warning-accuracy", rng.choice(["50", "10.5"])])
+        rng.shuffle(ps)
+        return ps
+    if tkey == "text":
+        return [["rows", rng.choice(["3", "10"])]] if rng.random() < 0.3 else []
+    return []
+
+
+def render_params(rng, ps):
+    sep = rng.choice([" ", " ", ";", ",", "; ", " ;", ", "])
+    return sep.join((k.upper() if rng.random() < 0.1 else k) + rng.choice(["=", "=", " =", "= "] if sep.strip() and len(ps) > 1 else ["="]) + v
+                    for k, v in ps)
+
+
+def _is_nonzero_dec(v: str) -> bool:
+    return "." in v and any(c in "123456789" for c in v)
+
+
+def own_param_logic(tkey, ps):
+    """bind attributes the documented parameter rules prescribe (XLSForm reference: range is decimal when
+    any of start/end/step — written or defaulted — is a decimal; max-pixels, quality, allow-mock-accuracy
+    pass through, lower-cased)."""
+    d = {k.lower(): v.lower() for k, v in ps}
+    if tkey == "range":
+        vals = list(d.values()) + [v for k, v in (("start", "1"), ("end", "10"), ("step", "1")) if k not in d]
+        return [["type", "decimal"]] if any(_is_nonzero_dec(v) for v in vals) else []
+    if tkey in ("photo", "image") and "max-pixels" in d:
+        return [["orx:max-pixels", d["max-pixels"]]]
+    if tkey == "audio" and "quality" in d:
+        return [["odk:quality", d["quality"]]]
+    if tkey in ("geopoint", "geoshape", "geotrace") and "allow-mock-accuracy" in d:
+        return [["odk:allow-mock-accuracy", d["allow-mock-accuracy"]]]
+    return []
+
+
+PARAM_TYPES = ["range", "range", "range", "photo", "image", "audio", "background-audio", "geopoint", "geoshape", "geotrace", "text"]
+
 SELECTS = [("select_one", "select one"), ("select_multiple", "select all that apply"), ("rank", "rank"),
            ("select one", "select one"), ("select1", "select one"), ("select all that apply", "select all that apply")]
 OR_OTHER = [" or_other", " or other", " or specify other"]
@@ -146,6 +219,7 @@ class ARow:
         self.other = False
         self.path = None
         self.extra = {}
+        self.params = []
 
 
 def gen_value(rng, attr, tops):
@@ -153,7 +227,7 @@ def gen_value(rng, attr, tops):
         return rng.choice(YESNO)
     if attr in ("jr:constraintMsg", "jr:requiredMsg", "jr:noAppErrorString"):
         v = rng.choice(MSGS)
-        if tops and attr != "jr:noAppErrorString" and rng.random() < 0.2:
+        if tops and rng.random() < 0.25:
             v += " ${" + rng.choice(tops) + "}"
         return v
     if attr == "type":
@@ -173,6 +247,7 @@ def gen_form(rng, big=False, directed=None):
     nq = rng.randint(1, 12 if big else 7)
     p_struct = rng.choice([0.0, 0.0, 0.15, 0.3])
     p_logic = rng.choice([0.2, 0.5, 0.8])
+    p_params = 0.6 if directed == "params" else rng.choice([0.0, 0.0, 0.2])
     rows: list[ARow] = []
     stack = []
     names = []
@@ -210,7 +285,12 @@ def gen_form(rng, big=False, directed=None):
             if rng.random() < 0.5:
                 tcell, key = rng.choice([("text", "text"), ("integer", "integer"), ("note", "note"), ("calculate", "calculate"),
                                          ("date", "date"), ("decimal", "decimal"), ("acknowledge", "acknowledge"), ("trigger", "trigger")])
-            rows.append(ARow("q", fresh("q"), tcell, key))
+            ar = ARow("q", fresh("q"), tcell, key)
+            if p_params and rng.random() < p_params:
+                t = rng.choice(PARAM_TYPES)
+                ar.tcell, ar.tkey = t, ("photo" if t == "image" else t)
+                ar.params = gen_params(rng, t)
+            rows.append(ar)
     while stack:
         if rows[-1].kind == "begin":
             rows.append(ARow("q", fresh("q"), "text", "text"))
@@ -230,7 +310,7 @@ def gen_form(rng, big=False, directed=None):
             tops.append(ar.name)
     # second pass: logic
     attrs_pool = list(SPELL) + [c for c in CUSTOM if style == "double" or ":" not in c]
-    vis_tops = [ar.name for ar in rows if ar.kind == "q" and ar.path == "/data/" + ar.name and ar.tcell != "calculate"]
+    vis_tops = [ar.name for ar in rows if ar.kind == "q" and ar.path == "/data/" + ar.name and ar.tkey in VISIBLE_TKEYS]
     used_attrs = []
     for ar in rows:
         if ar.kind == "end":
@@ -240,15 +320,13 @@ def gen_form(rng, big=False, directed=None):
             chosen = rng.sample(attrs_pool, k)
             if ar.tkey == "calculate" and "calculate" not in chosen:
                 chosen.append("calculate")
-            if directed == "tag" and rng.random() < 0.5:
-                chosen.append(rng.choice(["tag", "tag", "toParseString"]))
             for a in chosen:
                 if a == "type" and ar.tkey in ("select one", "select all that apply", "rank") and rng.random() < 0.9:
                     continue
                 if a in ("jr:constraintMsg", "jr:requiredMsg", "jr:noAppErrorString") and rng.random() < 0.4:
                     ls = rng.sample(LANGS, rng.randint(1, 2))
                     val = {l: gen_value(rng, a, []) for l in ls}
-                    if rng.random() < 0.3 and "default" not in val:
+                    if rng.random() < 0.3:
                         val[None] = gen_value(rng, a, [])  # unsuffixed column as well
                 else:
                     val = gen_value(rng, a, tops)
@@ -274,6 +352,8 @@ def gen_form(rng, big=False, directed=None):
     extra_cols = []
     if any(ar.trigger for ar in rows):
         extra_cols.append("trigger")
+    if any(ar.params for ar in rows):
+        extra_cols.append(rng.choice(["parameters", "parameters", "Parameters"]))
     if any(ar.count for ar in rows):
         extra_cols.append(rng.choice(["repeat_count", "count", "jr:count"] if style == "single" else ["repeat_count", "count", "control::jr:count"]))
     has_disabled = rng.random() < 0.15
@@ -301,6 +381,8 @@ def gen_form(rng, big=False, directed=None):
                 cells[cols[(a, None)]] = val
         if ar.trigger:
             cells["trigger"] = ar.trigger
+        if ar.params:
+            cells[[c for c in extra_cols if c.lower() == "parameters"][0]] = render_params(rng, ar.params)
         if ar.count:
             cells[[c for c in extra_cols if "count" in c][0]] = ar.count
         for c in extra_cols:
@@ -358,7 +440,10 @@ def spec_rows(arows):
         if ar.kind == "begin" and ar.count and not re.fullmatch(r"\$\{[A-Za-z_][\w.\-]*\}", clean(ar.count)):
             out.append({"path": ar.path + "_count", "tkey": "calculate",
                         "logic": [["readonly", "true()"], ["calculate", clean(ar.count)]], "trigger": False, "gen": "count"})
-        out.append({"path": ar.path, "tkey": ar.tkey, "logic": logic, "trigger": bool(ar.trigger), "row": ar.name})
+        for k, v in own_param_logic(ar.tkey, ar.params):
+            logic = [kv for kv in logic if kv[0] != k] + [[k, v]]
+        out.append({"path": ar.path, "tkey": ar.tkey, "logic": logic, "trigger": bool(ar.trigger), "row": ar.name,
+                    "params": ar.params})
         if ar.other:
             out.append({"path": ar.path + "_other", "tkey": "text",
                         "logic": [["relevant", f"selected(../{ar.name}, 'other')"]], "trigger": False, "gen": "other"})
@@ -368,6 +453,23 @@ def spec_rows(arows):
 
 
 # ---------------------------------------------------------------- observation
+
+
+def itext_ids(xform: str):
+    tree, err = xmlutil.expat_tree(xform)
+    ids = set()
+
+    def walk(el, in_itext):
+        if "t" not in el:
+            return
+        if el["t"] == "text" and in_itext:
+            ids.update(v for k, v in el["a"] if k == "id")
+        for k in el["k"]:
+            walk(k, in_itext or el["t"] == "itext")
+
+    if tree is not None:
+        walk(tree, False)
+    return ids
 
 
 def observe_binds(xform: str):
@@ -413,7 +515,7 @@ def form_case(ctx, form, arows, meta):
             ctx.mismatch("model rejects (duplicate column), implementation accepts", case, "ok", m)
         # ---- oracle on the implementation's output
         exp = ctx.driver.call("binds.spec", root="data", tops=meta["tops"], rows=case["spec_rows"])
-        oracle(ctx, case, obs, exp)
+        oracle(ctx, case, obs, exp, itext_ids(r["xform"]))
         nontrivial = any(sr["logic"] and "row" in sr for sr in case["spec_rows"])
         ctx.count("types:" + str(len({sr["tkey"] for sr in case["spec_rows"]})))
     else:
@@ -428,7 +530,7 @@ def form_case(ctx, form, arows, meta):
     ctx.record(case, nontrivial)
 
 
-def oracle(ctx, case, obs, exp):
+def oracle(ctx, case, obs, exp, ids=None):
     srows = case["spec_rows"]
     want = {}
     optional = {}
@@ -451,6 +553,13 @@ def oracle(ctx, case, obs, exp):
             ctx.fail(Failure("duplicate-bind", f"two bind elements for {ns}", case, extra={"nodeset": ns}))
             continue
         seen[ns] = attrs
+    if ids is not None:
+        for ns, attrs in seen.items():
+            for k, v in attrs:
+                m = re.fullmatch(r"jr:itext\('(.*)'\)", v)
+                if m and m.group(1) not in ids:
+                    ctx.fail(Failure("dangling-itext", f"{ns}: {k} refers to itext id {m.group(1)!r}, which the form does not define",
+                                     case, extra={"attr": k}))
     for ns, attrs in seen.items():
         if ns in optional and ns not in want:
             want[ns] = optional[ns]
@@ -598,7 +707,7 @@ def explore(ctx, factor, bs):
     for i in range(ctx.pick(30, 300)):
         dup_header_case(ctx)
     for i in range(n):
-        directed = "tag" if rng.random() < 0.03 else None
+        directed = "params" if rng.random() < 0.12 else None
         form, arows, meta = gen_form(rng, big=not ctx.quick(), directed=directed)
         form_case(ctx, form, arows, meta)
     inside = ctx.dist.get("fragment:inside", 0)
@@ -620,7 +729,7 @@ def replay(ctx, payload, bs):
         if r["ok"]:
             obs = observe_binds(r["xform"])
             exp = ctx.driver.call("binds.spec", root="data", tops=case["tops"], rows=case["spec_rows"])
-            oracle(ctx, case, obs, exp)
+            oracle(ctx, case, obs, exp, itext_ids(r["xform"]))
             rows = [[[k, v] for k, v in row.items() if v not in (None, "")] for row in form["survey"]]
             m = ctx.driver.call("binds.model", headers=form["survey_cols"], rows=rows, lists=["l1", "l2"], root="data", dl="default")
             if m["outcome"] == "ok" and [[o[0], o[1]] for o in obs] != m["binds"]:
@@ -630,16 +739,7 @@ def replay(ctx, payload, bs):
     return (len(ctx.failures), len(ctx.mismatches)) == before[:2] and ctx.known_seen == before[2]
 
 
-def _is_node_kwarg_drop(f: Failure) -> bool:
-    # the bind attribute is literally named after one of utils.node()'s own keyword options
-    # (`tag`, `toParseString`), the row has that cell, and the failure is that attribute missing
-    if f.kind != "attr-dropped" or f.extra.get("attr") not in ("tag", "toParseString"):
-        return False
-    row = f.extra.get("row") or {}
-    return any(a == f.extra["attr"] for a, _ in row.get("logic", []))
-
-
-MATCHERS = {"C05-bind-attr-named-like-node-kwarg": _is_node_kwarg_drop}
+MATCHERS = {}
 
 
 def main(argv):
